@@ -101,12 +101,14 @@ HAZ = {
     'dummy_only_in_dimension': (['uargs', 'sched'], 'unused-args:dummy-used-only-in-dimension'),
 }
 HAZ_ORDER = sorted(HAZ)
+OPTION_HAZARDS = {'uvars_scalars_with_loops': {'only_arrays': True}, 'sched_both': {'sched_what': 'args'}}
 
 
 def plan(idx, rng):
     """(mode, hazard, flags, opts)"""
     flags = {'max_stmts': rng.choice([6, 9, 12, 16]), 'max_depth': rng.choice([2, 3, 3]),
-             'internal': rng.random() < 0.7, 'derived': rng.random() < 0.6, 'keyword_calls': rng.random() < 0.8}
+             'internal': rng.random() < 0.7, 'derived': rng.random() < 0.6, 'keyword_calls': rng.random() < 0.8,
+             'neg_step': rng.random() < 0.25}
     hazard = None
     if idx % 4 == 3:
         hazard = HAZ_ORDER[(idx // 4) % len(HAZ_ORDER)]
@@ -311,9 +313,13 @@ def run_case(idx, rng, tier, ctx):
             key = generic_key(mode, ev)
             wcase, wev = case, ev
             if hazard:
-                # attribution: the same program without the snippet must pass, else the snippet is not the cause
-                base = CPGen(random.Random(gseed), flags, None).generate()
-                bev = evaluate(base, mode, opts, wd, res['counters'])
+                # attribution: the same program without the snippet (for option hazards: the same program with the
+                # option reverted) must pass, else the hazard is not the cause
+                if hazard in OPTION_HAZARDS:
+                    base, bopts = case, dict(opts, **OPTION_HAZARDS[hazard])
+                else:
+                    base, bopts = CPGen(random.Random(gseed), flags, None).generate(), opts
+                bev = evaluate(base, mode, bopts, wd, res['counters'])
                 res['counters']['hazard_attribution_runs'] = 1
                 if bev['outcome'] == 'violation':
                     key, wcase, wev = generic_key(mode, bev), base, bev
